@@ -51,6 +51,18 @@ def run_case(rng, tier, case):
         for a in spec['assets']:
             if 'wacc' in a and a['type'] not in ('ScaledAsset',) and not a.get('periodicity') and not a['name'].startswith('cp'):
                 a['wacc'] = gen.pick(rng, [0., 0.05, 0.1, 0.3])
+    structs = [a for a in spec['assets'] if a['type'] == 'StructuredAsset']
+    if structs and rng.random() < 0.5:
+        # structured asset with a window of its own around wrapped assets with different own windows (the order of the WRAPPED assets is permuted below)
+        g_ = spec['grid']
+        for sa in structs:
+            ws, we, _k = gen.gen_window(rng, g_, kinds=['inside', 'straddle_start', 'straddle_end', 'start_only', 'end_only'])
+            sa['start'] = ws; sa['end'] = we
+            for x in sa['assets']:
+                if x['type'] != 'Storage':
+                    i_s, i_e, _k2 = gen.gen_window(rng, g_, kinds=['none', 'inside', 'straddle_start', 'straddle_end', 'start_only', 'end_only'])
+                    x['start'] = i_s; x['end'] = i_e
+        case.feature('structured_with_windows')
     mip = gen.is_mip(spec)
     tolv = solve.TOL_VAL_MIP if mip else solve.TOL_VAL
     for t in gen.asset_types(spec):
@@ -103,11 +115,29 @@ def run_case(rng, tier, case):
     perm = [int(i) for i in rng.permutation(len(spec['assets']))]
     if perm == sorted(perm) and len(perm) > 1:
         perm = perm[1:] + perm[:1]
-    ps = copy.deepcopy(spec); ps['assets'] = [spec['assets'][i] for i in perm]
-    case.spec['permutation'] = perm
+    ps = copy.deepcopy(spec); ps['assets'] = [ps['assets'][i] for i in perm]
+    inner_perm = False
+    if structs and rng.random() < 0.6:
+        # the order of the assets given to the portfolio INSIDE a structured asset is permuted as well
+        for sa in ps['assets']:
+            if sa['type'] == 'StructuredAsset' and len(sa['assets']) > 1:
+                q = [int(i) for i in rng.permutation(len(sa['assets']))]
+                if q == sorted(q):
+                    q = q[1:] + q[:1]
+                sa['assets'] = [sa['assets'][i] for i in q]; inner_perm = True
+        if inner_perm:
+            case.feature('inner_permutation')
+    case.spec['permutation'] = perm; case.spec['permuted'] = ps
     r2 = flow.run_portfolio(ps, do_extract=False)
     if not r2.ok:
         case.check('permute.setup_still_works', False, permutation=perm, error=flow.describe_error(r2))
+    elif inner_perm:
+        # (the structured asset's own variable order changes with the inner order: only what the property states - value - is compared)
+        if r0.solved and r2.solved:
+            v0, v2 = float(r0.res.value), float(r2.res.value)
+            case.check('permute.value_equal', abs(v0 - v2) <= tolv * (1 + abs(v0)), value=v0, value_permuted=v2, permutation=perm, inner_permutation=True)
+        elif isinstance(r0.res, str) != isinstance(r2.res, str) and 'inaccurate' not in (r0.res, r2.res):
+            case.check('permute.value_equal', False, res=str(r0.res)[:20], res_permuted=str(r2.res)[:20], permutation=perm, inner_permutation=True)
     else:
         (pe0, k0), (pe2, k2) = flow.top_setups(r0.rec)[0], flow.top_setups(r2.rec)[0]
         by0 = {k.args['name']: k for k in k0}; by2 = {k.args['name']: k for k in k2}
